@@ -28,6 +28,10 @@ PURE_NAMES = {
     "socket_options", "monitor", "version", "chunk", "index", "capacity", "into_iter", "enumerate", "rev", "copied",
     "cloned", "as_pathname", "ip", "port", "local_addr", "peer_addr", "into_future", "new_unchecked", "fuse", "branch",
     "from_residual", "from_output", "as_str", "to_bytes", "default",
+    # `log::max_level()`: the level test of every `log::trace!/debug!/..` statement. Read as one value per path, so a path has all
+    # its log statements of one level enabled or all disabled (the enabled paths carry every event of the disabled ones) instead of
+    # 2^n combinations that differ in nothing a rule looks at
+    "max_level",
 }
 # pure names that nevertheless produce a fresh/unique value each time
 FRESH = {"default"}
